@@ -30,27 +30,40 @@ type SleeperCfg struct {
 	// (every pair): creates split votes on the first frame
 	DropInFirstRound bool
 	Rots             int // number of rotations of the validator order used (0 = all)
+	// TwoForkers: (with Forks) additionally every pair of different forkers, each fork branch referenced by
+	// nobody or by one chosen validator
+	TwoForkers bool
 }
 
 // GenSleeper enumerates the family.
 func GenSleeper(cfg SleeperCfg, mine func(i int) bool, visit func(d *lref.DAG, desc string)) int {
 	n := len(cfg.W.W)
 	total, idx := 0, 0
-	type forkMode struct {
-		on      bool
-		forker  int
-		adopter int // -1: the dead branch is referenced by nobody
-	}
-	forkModes := []forkMode{{}}
+	type oneFork struct{ forker, adopter int }
+	type forkMode []oneFork
+	forkModes := []forkMode{nil}
 	if cfg.Forks {
+		var singles []oneFork
 		for f := 0; f < n; f++ {
 			if uint64(cfg.W.W[f])*3 >= totalW(cfg.W.W) {
 				continue
 			}
-			forkModes = append(forkModes, forkMode{true, f, -1})
+			singles = append(singles, oneFork{f, -1})
 			for a := 0; a < n; a++ {
 				if a != f {
-					forkModes = append(forkModes, forkMode{true, f, a})
+					singles = append(singles, oneFork{f, a})
+				}
+			}
+		}
+		for _, s1 := range singles {
+			forkModes = append(forkModes, forkMode{s1})
+		}
+		if cfg.TwoForkers {
+			for _, s1 := range singles {
+				for _, s2 := range singles {
+					if s2.forker > s1.forker && uint64(cfg.W.W[s1.forker]+cfg.W.W[s2.forker])*3 < totalW(cfg.W.W) {
+						forkModes = append(forkModes, forkMode{s1, s2})
+					}
 				}
 			}
 		}
@@ -76,10 +89,18 @@ func GenSleeper(cfg SleeperCfg, mine func(i int) bool, visit func(d *lref.DAG, d
 				for sleeper := 0; sleeper < n; sleeper++ {
 					for k := cfg.MinSleep; k <= cfg.MaxSleep; k++ {
 						// build phases 1-2 once to learn how many events exist at the return
-						base, tips, dead := buildSleeperPrefix(cfg, rot, fm.on, fm.forker, fm.adopter, dr.who, dr.whom, sleeper, k)
+						var fks [][2]int
+						for _, f1 := range fm {
+							fks = append(fks, [2]int{f1.forker, f1.adopter})
+						}
+						base, tips, deads := buildSleeperPrefix(cfg, rot, fks, dr.who, dr.whom, sleeper, k)
 						nb := base.N()
 						for ret := -1; ret < nb; ret++ {
-							if ret >= 0 && (base.Events[ret].Creator == sleeper || ret == dead) {
+							isDead := false
+							for _, dd := range deads {
+								isDead = isDead || dd == ret
+							}
+							if ret >= 0 && (base.Events[ret].Creator == sleeper || isDead) {
 								continue
 							}
 							idx++
@@ -117,7 +138,7 @@ func GenSleeper(cfg SleeperCfg, mine func(i int) bool, visit func(d *lref.DAG, d
 							}
 							d.AssignFrames()
 							total++
-							visit(d, fmt.Sprintf("sleeper rot=%d fork=%v/%d/%d drop=%d>%d sleeper=%d sleep=%d return-parent=%d", rot, fm.on, fm.forker, fm.adopter, dr.who, dr.whom, sleeper, k, ret))
+							visit(d, fmt.Sprintf("sleeper rot=%d forks(forker,adopter)=%v drop=%d>%d sleeper=%d sleep=%d return-parent=%d", rot, fks, dr.who, dr.whom, sleeper, k, ret))
 						}
 					}
 				}
@@ -153,14 +174,13 @@ func addEvent(d *lref.DAG, creator, sp int, others []int) int {
 	return len(d.Events) - 1
 }
 
-func buildSleeperPrefix(cfg SleeperCfg, rot int, fork bool, forker, adopter, dropWho, dropWhom, sleeper, k int) (*lref.DAG, []int, int) {
+func buildSleeperPrefix(cfg SleeperCfg, rot int, forks [][2]int, dropWho, dropWhom, sleeper, k int) (*lref.DAG, []int, []int) {
 	n := len(cfg.W.W)
 	d := &lref.DAG{Weights: cfg.W.W, IDs: cfg.W.IDs, Epoch: cfg.Epoch}
 	tips := make([]int, n)
 	for i := range tips {
 		tips[i] = -1
 	}
-	dead := -1
 	// phase 1: first events, sequential
 	for j := 0; j < n; j++ {
 		v := (j + rot) % n
@@ -172,7 +192,9 @@ func buildSleeperPrefix(cfg SleeperCfg, rot int, fork bool, forker, adopter, dro
 		}
 		tips[v] = addEvent(d, v, -1, os)
 	}
-	if fork {
+	deads := make([]int, len(forks))
+	for fi, fk := range forks {
+		forker := fk[0]
 		// the forker emits two second events with the same self-parent: the first one is left behind
 		var os []int
 		for u := 0; u < n; u++ {
@@ -184,12 +206,11 @@ func buildSleeperPrefix(cfg SleeperCfg, rot int, fork bool, forker, adopter, dro
 		if len(first) > 1 {
 			first = first[:1]
 		}
-		dead = addEvent(d, forker, tips[forker], first)
-		live := addEvent(d, forker, tips[forker], os)
-		tips[forker] = live
+		deads[fi] = addEvent(d, forker, tips[forker], first)
+		tips[forker] = addEvent(d, forker, tips[forker], os)
 	}
 	// phase 2: the sleeper is silent for k rounds
-	adopted := false
+	adopted := make([]bool, len(forks))
 	for r := 0; r < k; r++ {
 		for j := 0; j < n; j++ {
 			v := (j + rot) % n
@@ -203,14 +224,16 @@ func buildSleeperPrefix(cfg SleeperCfg, rot int, fork bool, forker, adopter, dro
 				}
 			}
 			if r == 0 && tips[sleeper] >= 0 {
-				os = append(os, tips[sleeper]) // the sleeper's first event is known
+				os = append(os, tips[sleeper]) // the sleeper's latest event is known
 			}
-			if fork && !adopted && v == adopter && dead >= 0 {
-				os = append(os, dead)
-				adopted = true
+			for fi, fk := range forks {
+				if !adopted[fi] && v == fk[1] {
+					os = append(os, deads[fi])
+					adopted[fi] = true
+				}
 			}
 			tips[v] = addEvent(d, v, tips[v], os)
 		}
 	}
-	return d, tips, dead
+	return d, tips, deads
 }
